@@ -61,8 +61,8 @@ def cli_config_runs(ctx):
     vlib.run_harness(["cliproj", vlib.CLI_BIN, ctx.path("cli_cases.ndjson"), ctx.path("cli_runs.ndjson"), ctx.path("cliproj"), "12"], timeout=3000)
     out = []
     for r in sorted(vlib.read_ndjson(ctx.path("cli_runs.ndjson")), key=lambda r: r["id"]):
-        o = "panic" if (r["panicked"] or r["signal"]) else "ok" if r["exit"] == 0 else "err"
-        out.append({"ev": "Stages", "id": 10_000_000 + r["id"], "kind": "cli-config", "cp": [ord(c) for c in texts[r["id"]]] if o == "panic" else [],
+        o = "timeout" if r["exit"] == -2 else "panic" if (r["panicked"] or r["signal"]) else "ok" if r["exit"] == 0 else "err"
+        out.append({"ev": "Stages", "id": 10_000_000 + r["id"], "kind": "cli-config", "cp": [ord(c) for c in texts[r["id"]]] if o in ("panic", "timeout") else [],
                     "stages": [{"s": "cli-generate", "o": o}]})
     return out
 
@@ -79,14 +79,18 @@ def cli_pair_runs(ctx):
              "directive @skip on FIELD\n", "directive @include(if: Int) on FIELD\n", "directive @skip(if: Boolean!, also: Int) on FIELD | FRAGMENT_SPREAD\n",
              "directive @deprecated on FIELD_DEFINITION\nextend type Query { old: Int @deprecated }\n", "directive @specifiedBy on SCALAR\nscalar S @specifiedBy\n",
              "directive @x on FIELD\ndirective @x(a: Int!) on FIELD\n", "directive @x(a: Int!) on FIELD\ndirective @x on FIELD\n", ""]
+    # recursive directives that ANOTHER directive uses (termination: the recursion search must end although it never returns to its start)
+    loops = ["directive @loop(arg: Int @loop(arg: 1)) on ARGUMENT_DEFINITION\ndirective @user(arg: Int @loop(arg: 2)) on OBJECT\nextend type N @user(arg: 3)\n",
+             "directive @user(arg: Int @p(x: 2)) on OBJECT\ndirective @p(x: Int @q(y: 1)) on ARGUMENT_DEFINITION\ndirective @q(y: Int @p(x: 1)) on ARGUMENT_DEFINITION\n",
+             "input In { f: Int @via(i: {f: 1}) }\ndirective @via(i: In) on INPUT_FIELD_DEFINITION\ndirective @user(arg: Int @via(i: {f: 2})) on ARGUMENT_DEFINITION\n"]
     ops = ["query Q { a }", "query Q { u { __typename ... on N { y } } }", "query Q { m { __typename } }", "query Q { a @skip }", "query Q { a @include(if: 1) }",
            "query Q { a @skip(if: true, also: 1) }", "query Q { a @x }", "query Q { a @x(a: 1) }", "query Q { m }", "query Q { old }", "query Q { n { y @skip(if: true) } }"]
     cfg = json.dumps({"schema": "./schema/*.graphql", "documents": "./ops/*.graphql",
                       "extensions": {"nitrogql": {"generate": {"schemaOutput": "./gen/schema.d.ts", "resolversOutput": "./gen/resolvers.d.ts",
                                                                "type": {"scalarTypes": {"M": "string", "S": "string"}}}}}})
     cases, texts = [], []
-    for t in twice:
-        for o in ops:
+    for t in twice + loops:
+        for o in (ops if t in twice else ops[:2]):
             cases.append({"id": len(cases), "files": [{"rel": "graphql.config.json", "text": cfg}, {"rel": "schema/s.graphql", "text": base + t},
                                                        {"rel": "ops/q.graphql", "text": o + "\n"}], "args": ["generate"], "texts": False})
             texts.append(base + t + "---\n" + o)
@@ -94,8 +98,8 @@ def cli_pair_runs(ctx):
     vlib.run_harness(["cliproj", vlib.CLI_BIN, ctx.path("pair_cases.ndjson"), ctx.path("pair_runs.ndjson"), ctx.path("pairproj"), "12"], timeout=3000)
     out = []
     for r in sorted(vlib.read_ndjson(ctx.path("pair_runs.ndjson")), key=lambda r: r["id"]):
-        o = "panic" if (r["panicked"] or r["signal"]) else "ok" if r["exit"] == 0 else "err"
-        out.append({"ev": "Stages", "id": 20_000_000 + r["id"], "kind": "cli-schema-op", "cp": [ord(c) for c in texts[r["id"]]] if o == "panic" else [],
+        o = "timeout" if r["exit"] == -2 else "panic" if (r["panicked"] or r["signal"]) else "ok" if r["exit"] == 0 else "err"
+        out.append({"ev": "Stages", "id": 20_000_000 + r["id"], "kind": "cli-schema-op", "cp": [ord(c) for c in texts[r["id"]]] if o in ("panic", "timeout") else [],
                     "stages": [{"s": "cli-generate", "o": o}]})
     return out
 
@@ -187,8 +191,8 @@ def run(ctx, res):
                 "unmutated documents, %d random token soups, %d grammar-built documents that reuse response keys for different fields / shapes and "
                 "spread one fragment several times under different conditions, random Unicode strings, nesting depth 8/32/64 and %d configuration texts; "
                 "plus 256 configurations that parse (every combination of the five output options x with / without operation documents x mode x model plugin) "
-                "run through the real CLI's `generate`, as are 143 schema x operation pairs whose schema uses one name for two kinds of type, redefines a built-in "
-                "directive or defines a directive twice. Every "
+                "run through the real CLI's `generate`, as are ~150 schema x operation pairs whose schema uses one name for two kinds of type, redefines a built-in "
+                "directive, defines a directive twice, or has a recursive directive that another directive uses (termination). Every "
                 "text is fed to every stage the pipeline model reaches (parse, extensions, imports, check, then generation or diagnostic "
                 "rendering; and the loader ABI without check) in crash-isolated child processes. Impl->spec: Trace_C08 accepts only ok/err "
                 "outcomes within 5 s per stage and checks the stage order against the model. Non-trivial = input that got past the first stage."
